@@ -360,7 +360,9 @@ def _assert_preconditions(
 
             check = contract.condition(**condition_kwargs)
 
-            if inspect.iscoroutine(check):
+            # The awaitables which are not coroutines (*e.g.*, futures) can not be awaited here either. They must
+            # not be taken for the truth value of the condition.
+            if inspect.isawaitable(check):
                 raise ValueError(
                     "Unexpected coroutine resulting from the condition {} for a sync function {}.".format(
                         contract.condition, func
@@ -436,7 +438,7 @@ def _capture_old(
         )
 
         captured = snap.capture(**capture_kwargs)
-        if inspect.iscoroutine(captured):
+        if inspect.isawaitable(captured):
             raise ValueError(
                 (
                     "Unexpected coroutine resulting from the snapshot capture {} "
@@ -503,7 +505,7 @@ def _assert_postconditions(
 
         check = contract.condition(**condition_kwargs)
 
-        if inspect.iscoroutine(check):
+        if inspect.isawaitable(check):
             raise ValueError(
                 "Unexpected coroutine resulting from the condition {} for a sync function {}.".format(
                     contract.condition, func
